@@ -65,6 +65,7 @@ def run(ctx):
     from . import c01
     from . import cond_spec as _S
     c01.c01_2(ctx, _S.load(), rule="C04.2", only={"two-byte"})
+    c01.c01_1(ctx, _S.load(), R="C04.2")
 
 
 def c04_1(ctx, spec):
@@ -109,8 +110,7 @@ def _costs_name(r):
     return r
 
 
-def c04_2(ctx, spec):
-    R = "C04.2"
+def c04_2(ctx, spec, R="C04.2"):
     fb = ctx.fb
     b = RG.parse_conditions_body(fb)
     if b is None:
